@@ -45,6 +45,9 @@ pub enum XOp {
     Image { spec: ImageSpec, second_projection: bool },
     Cloud(XCloud),
     CoordMeta(Option<String>),
+    /// extensions are registered until the writer refuses one (or 700 are registered): whatever number it accepts, the
+    /// file must open
+    ExtsToTheLimit,
 }
 
 #[derive(Clone, Debug, Serialize, Deserialize)]
@@ -275,6 +278,11 @@ struct Accepted {
 
 fn run_case(case: &Case, v: &mut Verdict, current: &mut String) -> Result<(), String> {
     let dev = MemDev::new();
+    if case.guid.len() % 5 == 0 {
+        // a device that serves reads and writes in short pieces (the writer re-reads pages it patches)
+        dev.st.borrow_mut().chunks = vec![100, 7, 300, 1, 64];
+        v.nt("device_with_short_transfers");
+    }
     let h = dev.handle();
     *current = "E57Writer::new".into();
     let mut w = match E57Writer::new(dev, &case.guid) {
@@ -296,6 +304,23 @@ fn run_case(case: &Case, v: &mut Verdict, current: &mut String) -> Result<(), St
                         acc.registered.push((prefix.clone(), url.clone()));
                     }
                     Err(_) => any_rejected = true,
+                }
+            }
+            XOp::ExtsToTheLimit => {
+                *current = "register_extension (until refused)".into();
+                v.nt("extensions_registered_until_the_writer_refuses");
+                for i in 0..700 {
+                    let (prefix, url) = (format!("lim{i}"), format!("urn:verif:limit:{i}"));
+                    if acc.registered.iter().any(|(p, _)| *p == prefix) {
+                        continue;
+                    }
+                    match w.register_extension(Extension::new(&prefix, &url)) {
+                        Ok(()) => acc.registered.push((prefix, url)),
+                        Err(_) => {
+                            any_rejected = true;
+                            break;
+                        }
+                    }
                 }
             }
             XOp::CoordMeta(c) => {
@@ -411,7 +436,14 @@ fn run_case(case: &Case, v: &mut Verdict, current: &mut String) -> Result<(), St
     }
     *current = "finalize".into();
     let fin = match case.end {
-        XEnd::Finalize => w.finalize(),
+        // (every other time through the customising variant with a transformer that changes nothing)
+        XEnd::Finalize => {
+            if case.guid.len() % 2 == 0 {
+                w.finalize_customized_xml(Ok)
+            } else {
+                w.finalize()
+            }
+        }
         XEnd::TransformerFails => {
             let r = w.finalize_customized_xml(|_| Err(Error::Invalid { desc: "transformer refuses".into(), source: None }));
             if r.is_ok() {
@@ -593,6 +625,9 @@ impl Check for C10 {
                 gen::ext_url(s, &format!("ns{k}"))
             };
             ops.push(XOp::Ext { prefix, url });
+        }
+        if s.chance(1, 300) {
+            ops.push(XOp::ExtsToTheLimit);
         }
         for _ in 0..1 + s.below(4) {
             ops.push(match s.weighted(&[7, 2, 2, 1]) {
